@@ -1132,6 +1132,30 @@ static void build(vf::Plan &plan, const vf::Opts &o)
                        return strf("%s: %zu ASCII bytes, then %s, then 'z'", how == 0 ? "format {} with a std::string argument" : "format string made of the literal",
                                    t.size() - 1 - (t.size() > 1 ? 0 : 0), "one multi-byte character");
                    });
+        // one piece of tens of KiB with the multi-byte character straddling every multiple of 16 KiB up to 128 KiB (and 256 KiB in the
+        // thorough tier): a sink that works through a piece in blocks must not cut a character
+        {
+            const unsigned KMAX = th ? 16 : 8;
+            plan.stage(strf("format:very long text, a 2-/3-/4-byte character starting 3..0 bytes before and 1 byte after every multiple of 16 KiB up to %u KiB, as argument and as literal, all sinks", KMAX * 16),
+                       (uint64_t)2 * 3 * KMAX * 5,
+                       [](uint64_t i, Ctx &c) {
+                           unsigned how = (unsigned)vf::take(i, 2), kind = (unsigned)vf::take(i, 3), d = (unsigned)vf::take(i, 5);
+                           size_t pos = ((size_t)i + 1) * 16384 + d - 3;
+                           static const char *const CH[3] = {"\xC3\xA9", "\xE2\x82\xAC", "\xF0\x9F\x98\x80"};
+                           std::string t(pos, 'a');
+                           for (size_t k = 0; k < pos; k += 61) t[k] = (char)('b' + (k / 61) % 20);
+                           t += CH[kind];
+                           t += "zz";
+                           if (how == 0) run_case(c, "{}", t);
+                           else run_case(c, t);
+                           c.nontrivial();
+                       },
+                       [](uint64_t i) {
+                           unsigned how = (unsigned)vf::take(i, 2), kind = (unsigned)vf::take(i, 3), d = (unsigned)vf::take(i, 5);
+                           return strf("%s: %zu ASCII bytes, then a %u-byte character", how == 0 ? "argument" : "literal", ((size_t)i + 1) * 16384 + d - 3, kind + 2);
+                       })
+                .case_timeout_s = 30;
+        }
         // two pieces: a first piece of every length, then a second piece of a few lengths (growth of the assembling
         // buffer is decided by the pair (held, added), not by the total alone)
         const unsigned N1MAX = th ? 4200 : 1100;
